@@ -141,6 +141,18 @@ pub fn junk_menu() -> Vec<Vec<u8>> {
         vec![0x50, 0x4b, 0x03, 0x04, 20, 0, 0, 0, 8, 0, 0, 0, 0, 0, 0, 0, 0, 0, 0, 0, 0, 0, 0, 0, 0, 0, 0xff, 0xff, 0xff, 0xff],
         vec![0xff; 7],
         vec![0x78, 0xda, 0x78, 0x5e, 0x1f],
+        // 16..: tiny *valid* wrapped streams (far below the size threshold) whose final stored block
+        // swallows the next 2 / 12 / 32 / 2 / 4 bytes, i.e. the header of the wrapper that follows
+        vec![0x78, 0x01, 0x01, 0x02, 0x00, 0xfd, 0xff],
+        vec![0x78, 0x9c, 0x01, 0x0c, 0x00, 0xf3, 0xff],
+        vec![0x78, 0xda, 0x01, 0x20, 0x00, 0xdf, 0xff],
+        vec![0x1f, 0x8b, 0x08, 0x00, 0, 0, 0, 0, 0, 3, 0x01, 0x02, 0x00, 0xfd, 0xff],
+        {
+            let mut z = vec![0x50, 0x4b, 0x03, 0x04, 20, 0, 0, 0, 8, 0];
+            z.extend_from_slice(&[0; 20]);
+            z.extend_from_slice(&[0x01, 0x04, 0x00, 0xfb, 0xff]);
+            z
+        },
     ]
 }
 
@@ -223,6 +235,21 @@ pub fn wrapper_menu(full: bool) -> Vec<Wrapper> {
                 });
             }
         }
+    }
+    // size fields that do not describe the stream: streamed entry (flag bit 3, zero sizes, data descriptor),
+    // zip64 placeholders, sizes that are too small / too large
+    for (d, flags, cs, us, desc) in [
+        ("streamed entry (bit 3, zero sizes, data descriptor)", 8u16, 0u32, 0u32, true),
+        ("zip64 placeholder sizes", 0, 0xffff_ffff, 0xffff_ffff, false),
+        ("compressed size field too small", 0, 5, 100, false),
+        ("compressed size field too large", 0, 0x00ff_ffff, 0x00ff_ffff, false),
+    ] {
+        v.push(Wrapper {
+            kind: WKind::Zip,
+            descr: format!("zip method 8 {}", d),
+            supported: true,
+            build: Arc::new(move |s| zip_wrap_ex(flags, cs, us, if desc { 0 } else { crc32(&s.plain) }, b"entry.txt", &[], &s.stream, desc, &s.plain)),
+        });
     }
     if full {
         v.push(Wrapper {
@@ -349,6 +376,28 @@ pub fn png_odd_menu() -> Vec<Wrapper> {
             }),
         });
     }
+    // an accepted zlib stream whose last four bytes are the length field of an IDAT chunk that follows
+    // immediately (the IDAT look-back reaches into bytes that were already consumed)
+    v.push(Wrapper {
+        kind: WKind::Png,
+        descr: "zlib stream whose tail is the length field of a following IDAT chunk".into(),
+        supported: false,
+        build: Arc::new(move |s| {
+            let inner = zlib_wrap([0x78, 0x9c], &s.stream, &s.plain);
+            let len_be = (inner.len() as u32).to_be_bytes();
+            let mut data = crate::streams::text_family(4, 1100);
+            let n = data.len();
+            data[n - 4..].copy_from_slice(&len_be);
+            let mut f = vec![0x78, 0x9c];
+            f.extend_from_slice(&serialise(&Stream { blocks: vec![Block::Stored { data, pad: 0 }], final_pad: 0 }));
+            let mut body = b"IDAT".to_vec();
+            body.extend_from_slice(&inner);
+            f.extend_from_slice(&body);
+            f.extend_from_slice(&crc32(&body).to_be_bytes());
+            f.extend_from_slice(b"trailing");
+            f
+        }),
+    });
     // zip header whose extra / name field runs past EOF
     for (d, nl, el) in [("extra", 0u16, 65535u16), ("name", 65535, 0), ("both", 9, 400)] {
         v.push(Wrapper {
